@@ -70,8 +70,8 @@ let u_mlvalue c =
               (Printf.sprintf "token %d: eligible literal %s -> %s: a line is not indented like the literal's own line (%d indentations, %d continuations)" i (hex k.content) (hex k'.content) k'.ind k'.cont)
           end;
           (* terminators inside a rewritten literal are the configured newline *)
-          if k.content <> k'.content && string_of_bytes (MLStringJoin.join rs.rs_newline (lines_custom c1)) <> k'.content then
-            fail "mlstring_terminators" (Printf.sprintf "token %d: rewritten literal %s has terminators other than the configured newline" i (hex k'.content))
+          if string_of_bytes (MLStringJoin.join rs.rs_newline (lines_custom c1)) <> k'.content then
+            fail "mlstring_terminators" (Printf.sprintf "token %d: eligible literal %s has terminators other than the configured newline after formatting" i (hex k'.content))
         end
       end) a;
     !res
